@@ -344,6 +344,7 @@ func (sc *c20Scenario) runPure(s *simrt.Sim, h *Hist) {
 		{"string 42", "42", [5]int{0, 0, 0, 0, 1}},
 		{"nil", nil, [5]int{0, 1, 0, 0, 0}},
 		{"typed nil pointer", nilPtr, [5]int{0, -1, 0, 0, 0}},
+		{"typed nil *CompData (what NewCompData returns for mismatching arguments)", fpgo.NewCompData(fpgo.DefProduct(reflect.Int), "no"), [5]int{0, -1, 0, 0, 0}},
 		{"struct", st, [5]int{0, 0, 0, 0, 0}},
 		{"pointer to struct", &st, [5]int{0, 0, 0, 0, 0}},
 		{"slice", []int{1, 2}, [5]int{0, 0, 0, 0, 0}},
@@ -352,7 +353,7 @@ func (sc *c20Scenario) runPure(s *simrt.Sim, h *Hist) {
 	}
 	h.Do("main", "pattern-matching", p.Patterns, func() (interface{}, error) {
 		for _, pr := range probes {
-			if pr.v == nil && pr.name != "nil" {
+			if cd, isCD := pr.v.(*fpgo.CompData); isCD && cd == nil && !strings.HasPrefix(pr.name, "typed nil") {
 				bad("comp-data", "NewCompData-nil-for-matching-arguments", "NewCompData returned nil for arguments that match the declared type: "+pr.name)
 				continue
 			}
